@@ -26,6 +26,13 @@ SumS(s) == IF s = <<>> THEN 0 ELSE Head(s) + SumS(Tail(s))
 RECURSIVE FlattenS(_)
 FlattenS(ss) == IF ss = <<>> THEN <<>> ELSE Head(ss) \o FlattenS(Tail(ss))
 
+\* product of polynomials (term by term; like terms are not merged: Eval adds them up)
+PMulT(t, q) == [k \in DOMAIN q |-> [c |-> t.c * q[k].c, e |-> [i \in 1..NV |-> t.e[i] + q[k].e[i]]]]
+RECURSIVE PMul(_, _)
+PMul(p, q) == IF p = <<>> THEN <<>> ELSE PMulT(Head(p), q) \o PMul(Tail(p), q)
+\* component i of the convective term (V . nabla) F as a polynomial:  SUM_j  V_j * dF_i/ds_j
+RECURSIVE ConvPoly(_, _, _, _)
+ConvPoly(Fi, V, J, j) == IF j > Len(J) THEN <<>> ELSE PMul(D(Fi, J[j]), V[j]) \o ConvPoly(Fi, V, J, j + 1)
 \* expected result row (flattened) of operator op at point pt.
 \*   F : sequence of polynomials (components), gs : sequence of group names, aux : sequence of polynomials or ints
 Expected(op, F, gs, aux, pt) ==
@@ -37,6 +44,9 @@ Expected(op, F, gs, aux, pt) ==
     [] op = "partial" -> <<Eval(DSeq(F[1], J), pt)>>
     [] op = "normal_derivative" -> <<SumS([j \in DOMAIN J |-> Eval(D(F[1], J[j]), pt) * Eval(aux[j], pt)])>>
     [] op = "convective" -> [i \in DOMAIN F |-> SumS([j \in DOMAIN J |-> Eval(D(F[i], J[j]), pt) * Eval(aux[j], pt)])]
+    \* an operator applied to the RESULT of another one: gradient / Laplacian of the first component of the convective term
+    [] op = "conv_grad" -> LET C1 == ConvPoly(F[1], aux, J, 1) IN [j \in DOMAIN J |-> Eval(D(C1, J[j]), pt)]
+    [] op = "conv_lap" -> LET C1 == ConvPoly(F[1], aux, J, 1) IN <<SumS([j \in DOMAIN J |-> Eval(D(D(C1, J[j]), J[j]), pt)])>>
     [] op = "sym_grad2" -> FlattenS([i \in DOMAIN F |-> [j \in DOMAIN J |-> Eval(D(F[i], J[j]), pt) + Eval(D(F[j], J[i]), pt)]])   \* 2 * sym_grad
     [] op = "matrix_div" -> LET n == Len(J)  m == Len(F) \div n IN            \* F = rows of an m x n matrix, row major
                             [i \in 1..m |-> SumS([j \in 1..n |-> Eval(D(F[(i - 1) * n + j], J[j]), pt)])]
